@@ -1030,18 +1030,36 @@ def random_list(rng, pools, nlines):
 
 class _Srv(http.server.BaseHTTPRequestHandler):
     files = {}
+    protocol_version = "HTTP/1.1"
+    served = 0
 
     def do_GET(self):
         name = self.path.rsplit("/", 1)[-1]
-        if name in _Srv.files:
-            b = _Srv.files[name]
-            self.send_response(200)
+        if name not in _Srv.files:
+            self.send_response(404)
+            self.send_header("Content-Length", "0")
+            self.end_headers()
+            return
+        b = _Srv.files[name]
+        _Srv.served += 1
+        self.send_response(200)
+        if _Srv.served % 2:
+            # every other file arrives in chunked transfer encoding, in pieces of uneven size with a flush after
+            # each: a client has to keep reading until the body ends
+            self.send_header("Transfer-Encoding", "chunked")
+            self.end_headers()
+            i, step = 0, 1 + (_Srv.served * 37) % 1500
+            while i < len(b):
+                piece = b[i:i + step]
+                self.wfile.write(b"%x\r\n" % len(piece) + piece + b"\r\n")
+                self.wfile.flush()
+                i += step
+                step = 1 + (step * 7) % 4093
+            self.wfile.write(b"0\r\n\r\n")
+        else:
             self.send_header("Content-Length", str(len(b)))
             self.end_headers()
             self.wfile.write(b)
-        else:
-            self.send_response(404)
-            self.end_headers()
 
     def log_message(self, *a):
         pass
